@@ -48,7 +48,7 @@ def make_signal(I, state, cls, name="asig", atom=R, dt_atom=DT, n="n", flags="co
     if not is_param and values is None:
         vals = vals.replace(origin=frozenset(["o%d._values" % o.id]))
     o.attrs["_values"] = vals
-    o.attrs["_dt"] = pos_scalar(name + ".dt", dt_atom)
+    o.attrs["_dt"] = pos_scalar(name + ".dt", dt_atom, sym=LinExpr("dt"))
     o.attrs["_npts"] = AV(kind=K_SCALAR, dtype="int", shape=(), sym=vals.shape[0] if vals.shape else None,
                           sign=S_POS, origin=frozenset(["lit"]), tags=frozenset(["p:%s.npts" % name]))
     o.attrs["label"] = AV(kind=K_STR, tags=frozenset(["p:%s.label" % name]))
